@@ -65,6 +65,8 @@ fn main() {
             let st = c11::start_status_task(&rig);
             let n = params.share(if th { 40_000 } else { 1_200 });
             Drive { params: &params, stats: &mut stats, known: &known }.run("c11.modes", 11, c11::strategy(), n, |c, s| c11::eval(&rig, &st, c, s));
+            let n = params.share(if th { 1_200 } else { 40 });
+            Drive { params: &params, stats: &mut stats, known: &known }.run("c11.storm", 111, c11::storm_strategy(), n, |c, s| c11::eval(&rig, &st, c, s));
             (c11::RULE.into(), e2e_assumptions)
         }
         "C07" => {
